@@ -474,11 +474,24 @@ pub fn run(rep: &mut Report, thorough: bool) {
                 }
             };
             t.settle();
-            let (out, _) = {
+            // two requests from ONE configured writer: caller-supplied auxiliary-vector values are
+            // configuration, they hold for the second request exactly as for the first
+            let (out, second) = {
                 let _g = dump::DUMP_LOCK.lock().unwrap_or_else(|e| e.into_inner());
-                dump::dump(&o)
+                let (mut w, _guard) = dump::configure(&o);
+                let first = dump::dump_with(&mut w, &mut crate::dest::Dest::plain());
+                t.settle();
+                let second = dump::dump_with(&mut w, &mut crate::dest::Dest::plain());
+                (first, second)
             };
             let case = json!({"args": args.len(), "env": env.len(), "fds": nfds, "blamed": if blamed == t.pid { "main" } else { "worker" }, "auxv_variant": which});
+            if av != 4 {
+                if let Outcome::Ok(img2) = &second {
+                    let im2 = image::decode(img2);
+                    rep.count("second_request_linker_streams_compared", 1);
+                    check_dso(rep, &im2, expect_chain, &format!("{which} (second request from the same writer)"), &case);
+                }
+            }
             match out {
                 Outcome::Ok(img) => {
                     let im = image::decode(&img);
